@@ -23,7 +23,11 @@ def _mins(n):
                  'cases_style_default': 100, 'cases_style_selectfirst': 50, 'cases_style_mixedwaits': 100,
                  'msgs_received_by_internal_thread': 30000, 'replies_received_by_owner': 30000,
                  'msgs_queued_before_first_start': 250, 'msgs_sent_after_shutdown_request': 200, 'msgs_sent_while_stopped': 600,
-                 'restarts': 250, 'owner_untimed_wait_ok': 10000, 'owner_select_wakeups': 700, 'owner_poll_ok': 10000, 'owner_timed_ok': 3000}.items():
+                 'restarts': 250, 'owner_untimed_wait_ok': 6000, 'owner_select_wakeups': 400, 'owner_poll_ok': 6000, 'owner_timed_ok': 2000,
+                 # owner woken through the harness's ICallbackMechanism (4 of the 9 combinations)
+                 'cases_callback_socketpair': 30, 'cases_callback_waitcondition': 30, 'cases_owner_callback_only': 25, 'cases_owner_callback_and_direct': 25,
+                 'callback_dispatches': 2500, 'callback_untimed_waits': 2000, 'replies_via_callback': 12000, 'callbacks_requested_during_drain': 250,
+                 'callback_resignals_by_dispatcher': 100, 'msgs_sent_from_inside_callback': 1000}.items():
         m[k] = int(v * f)
     return m
 
@@ -35,22 +39,26 @@ SPEC = dict(
           "thread replies (echo / bursts / sparse / none); the owner receives by poll, timed wait, untimed wait and untimed select on the "
           "owner wake-up socket; Messages are queued before the first start, behind the shutdown token and while stopped; 0-4 "
           "shutdown/join/restart cycles.  Case index k selects the delay placement (k % 32: 9 (site, role) windows of Thread.cpp x "
-          "yield/sleep/spin, no delay, 2 x uniform jitter, a random pair, a random triple) and the combination ((k / 32) % 5: socket pair or "
-          "wait-condition x internal-thread style default loop / select-first loop / mixed untimed-timed-polling waits).  The checker runs in "
+          "yield/sleep/spin, no delay, 2 x uniform jitter, a random pair, a random triple) and the combination ((k / 32) % 9: socket pair or "
+          "wait-condition x internal-thread style default loop / select-first loop / mixed untimed-timed-polling waits x owner woken directly or "
+          "(4 of 9) through an ICallbackMechanism implemented by the harness: the owner blocks untimed on the mechanism's latched flag, calls "
+          "DispatchCallbacks() and gets the replies through Thread::MessageReceivedFromInternalThread(), sometimes sending from inside the callback; "
+          "callback-only or mixed with direct GetNextReplyFromInternalThread() calls).  The checker runs in "
           "the harness on the internal thread's and the owner's logs: exactly once, per-sender FIFO in both directions (the owner's stream "
           "includes the shutdown tokens), nothing received that was not sent, one token per exit.  A lost wake-up or a join that never "
           "returns is reported only by the driver's proved-deadlock detector (all threads in untimed waits, no CPU, 3 s): every wait for "
           "completion in the harness is untimed.  A case is non-trivial when >= 20 Messages were sent and some receiver reached the blocking "
-          "point on an empty queue; distinct = distinct interleaving signatures (order in which threads passed the hooked sites)"),
+          "point on an empty queue or the owner blocked on the callback primitive; distinct = distinct interleaving signatures (order in which threads passed the hooked sites)"),
     assumptions=['lifecycle calls (Start/Shutdown/WaitFor...Exit) are owner-only: helper sends hold a harness shared lock that the owner takes exclusively around them',
                  'an untimed wait may return B_TIMED_OUT when a signal byte outlives the Message it announced (receivers loop); only 200000 such returns in a row count as a violation',
                  'blocking and timed receives are attempted only while the Thread counts as running; a stopped socket-pair Thread has no socket to wait on (unspecified corner, polled instead)',
                  'the owner selects on GetOwnerWakeupSocket() only after its own last dequeue attempt found the reply queue empty',
+                 'the harness ICallbackMechanism keeps a latched flag; the owner consumes it only directly before a full ICallbackMechanism::DispatchCallbacks()',
                  'g++ 12 ASan/UBSan/TSan report what they claim to report; the deadlock detector of lib/driver.py proves hangs'],
     legs=[
         Leg('regress', 'h_thread', 'asan', opts={'mode': 'regress'}, quick=1, thorough=1, workers=1, min_cases=1),
-        Leg('asan', 'h_thread', 'asan', opts={'mode': 'run'}, quick=2880, thorough=72000, workers=16),
-        Leg('tsan', 'h_thread', 'tsan', opts={'mode': 'run'}, quick=1920, thorough=48000, workers=16),
+        Leg('asan', 'h_thread', 'asan', opts={'mode': 'run'}, quick=3456, thorough=86400, workers=16),
+        Leg('tsan', 'h_thread', 'tsan', opts={'mode': 'run'}, quick=2304, thorough=57600, workers=16),
     ],
-    min_stats={'asan': _mins(2880), 'tsan': _mins(1920)},
+    min_stats={'asan': _mins(3456), 'tsan': _mins(2304), 'regress': {'regress_combinations': 9, 'regress_callback_request_during_drain_witnesses': 4, 'regress_callback_requests_signalled_during_drain': 4}},
 )
